@@ -28,7 +28,7 @@ func TestReplay(t *testing.T) { harness.ReplayPath(t) }
 // (a) operation lists
 
 type op struct {
-	K string `json:"k"` // "u" fixed width, "f" flag, "ue", "se"
+	K string `json:"k"` // "u" fixed width, "f" flag, "ue", "se", "sei" (ff_byte run coding of SEI type/size, ebsp writer only)
 	W int    `json:"w,omitempty"`
 	V int64  `json:"v"`
 }
@@ -50,7 +50,7 @@ func genOps(t *rapid.T) opsCase {
 	c := opsCase{Writer: rapid.SampledFrom([]string{"ebsp", "ebsp", "plain", "fsw"}).Draw(t, "writer")}
 	n := rapid.IntRange(1, 40).Draw(t, "n")
 	for i := 0; i < n; i++ {
-		kinds := []string{"u", "u", "f", "ue", "se", "z"}
+		kinds := []string{"u", "u", "f", "ue", "se", "z", "sei"}
 		if c.Writer != "ebsp" {
 			kinds = []string{"u", "u", "f", "z"}
 		}
@@ -73,10 +73,22 @@ func genOps(t *rapid.T) opsCase {
 			v := rapid.OneOf(rapid.Int64Range(-20, 20), rapid.Int64Range(-(1<<31-1), 1<<31-1),
 				rapid.SampledFrom([]int64{0, 1, -1, 127, -127, 128, -128, 32767, -32768, 1<<31 - 1, -(1<<31 - 1)})).Draw(t, "se")
 			c.Ops = append(c.Ops, op{K: "se", V: v})
+		case "sei":
+			// payload type / payload size coding of sei_message() (H.264 7.3.2.3.1, H.265 7.3.5): only ever
+			// written at byte-aligned positions, so an aligning fixed-width write is put in front if needed.
+			_, ends := refBits(c.Ops)
+			if len(ends) > 0 && ends[len(ends)-1]%8 != 0 {
+				w := 8 - ends[len(ends)-1]%8
+				c.Ops = append(c.Ops, op{K: "u", W: w, V: int64(boundaryU(w).Draw(t, "alignv"))})
+			}
+			v := rapid.OneOf(rapid.SampledFrom(seiValues), rapid.Uint64Range(0, 70000)).Draw(t, "sei")
+			c.Ops = append(c.Ops, op{K: "sei", V: int64(v)})
 		}
 	}
 	return c
 }
+
+var seiValues = []uint64{0, 1, 254, 255, 256, 509, 510, 511, 65535}
 
 // refBits serialises the ops with the harness' own writer and returns the raw (unescaped) bytes
 // together with the bit position after each op.
@@ -92,6 +104,12 @@ func refBits(ops []op) (rbsp []byte, ends []int) {
 			w.UE(uint64(o.V))
 		case "se":
 			w.SE(o.V)
+		case "sei":
+			// while (v >= 255) { ff_byte; v -= 255 }  last_payload_*_byte = v: v/255 bytes FF, then v%255
+			for i := int64(0); i < o.V/255; i++ {
+				w.U(0xff, 8)
+			}
+			w.U(uint64(o.V%255), 8)
 		}
 		ends = append(ends, w.NrBits())
 	}
@@ -109,7 +127,8 @@ func checkOps(c opsCase) *harness.Fail {
 	case "ebsp":
 		buf := bytes.Buffer{}
 		w := bits.NewEBSPWriter(&buf)
-		for _, o := range c.Ops {
+		staleHigh := false
+		for i, o := range c.Ops {
 			switch o.K {
 			case "u":
 				w.Write(uint(o.V), o.W)
@@ -119,7 +138,32 @@ func checkOps(c opsCase) *harness.Fail {
 				w.WriteExpGolomb(uint(o.V))
 			case "se":
 				w.WriteExpGolomb(uint(nalgen.SEMap(o.V)))
+			case "sei":
+				w.WriteSEIValue(uint(o.V))
 			}
+			// BitsInBuffer: "n bits written in buffer byte, not written to underlying writer": n is the
+			// number of pending bits of the reference accumulator (position mod 8) and the n low bits of
+			// the value are those pending bits. The bits above the n-th are not covered by the comment
+			// (the library keeps the low 8 bits of its accumulator, so already emitted bits can show up
+			// there); they are counted, not judged.
+			p := ends[i]
+			pend := uint(0)
+			if p%8 != 0 {
+				pend = uint(rbsp[p/8]) >> uint(8-p%8)
+			}
+			bv, bn := w.BitsInBuffer()
+			if int(bn) != p%8 || int(w.NrBitsInBuffer()) != p%8 {
+				return harness.Failf("C13|EBSPWriter.BitsInBuffer|bit count differs", "after op %d %+v: BitsInBuffer n=%d NrBitsInBuffer=%d, reference has %d pending bits", i, o, bn, w.NrBitsInBuffer(), p%8)
+			}
+			if bv&(1<<bn-1) != pend {
+				return harness.Failf("C13|EBSPWriter.BitsInBuffer|pending bits differ", "after op %d %+v: BitsInBuffer = (%#x, %d), reference pending bits %#x", i, o, bv, bn, pend)
+			}
+			if bv>>bn != 0 {
+				staleHigh = true
+			}
+		}
+		if staleHigh {
+			harness.Rec.Class("bitsinbuffer-value-has-bits-above-n")
 		}
 		if nb := int(w.NrBitsInBuffer()); nb != totalBits%8 {
 			return harness.Failf("C13|EBSPWriter.NrBitsInBuffer|differs", "NrBitsInBuffer %d, want %d", nb, totalBits%8)
@@ -152,6 +196,14 @@ func checkOps(c opsCase) *harness.Fail {
 				v = int64(r.ReadExpGolomb())
 			case "se":
 				v = int64(r.ReadSignedGolomb())
+			case "sei":
+				for {
+					b := r.Read(8)
+					v += int64(b)
+					if b < 255 || r.AccError() != nil {
+						break
+					}
+				}
 			}
 			if err := r.AccError(); err != nil {
 				return harness.Failf("C13|EBSPReader|error", "op %d %+v: %v", i, o, err)
@@ -171,6 +223,9 @@ func checkOps(c opsCase) *harness.Fail {
 			}
 			if r.NrBitsRead() != wantBits {
 				return harness.Failf("C13|EBSPReader.NrBitsRead|position differs", "after op %d: NrBitsRead %d, want %d (stream %x)", i, r.NrBitsRead(), wantBits, got)
+			}
+			if nb := r.NrBitsReadInCurrentByte(); nb != bitsInCurrentByte(p) {
+				return harness.Failf("C13|EBSPReader.NrBitsReadInCurrentByte|position differs", "after op %d at rbsp bit %d: %d, want %d (stream %x)", i, p, nb, bitsInCurrentByte(p), got)
 			}
 		}
 		return nil
@@ -223,6 +278,9 @@ func checkOps(c opsCase) *harness.Fail {
 		if r.NrBitsRead() != p || r.NrBytesRead() != (p+7)/8 {
 			return harness.Failf("C13|Reader.NrBitsRead|position differs", "after op %d: bits %d bytes %d want %d/%d", i, r.NrBitsRead(), r.NrBytesRead(), p, (p+7)/8)
 		}
+		if nb := r.NrBitsReadInCurrentByte(); nb != bitsInCurrentByte(p) {
+			return harness.Failf("C13|Reader.NrBitsReadInCurrentByte|position differs", "after op %d at bit %d: %d, want %d", i, p, nb, bitsInCurrentByte(p))
+		}
 	}
 	// two's complement signed reads of the same stream
 	r2 := bits.NewReader(bytes.NewReader(got))
@@ -240,6 +298,15 @@ func checkOps(c opsCase) *harness.Fail {
 	return nil
 }
 
+// bitsInCurrentByte is "number of bits read in current byte" after p > 0 bits were consumed: the current
+// byte is the last one fetched, i.e. the one holding bit p-1, of which 1..8 bits have been read.
+func bitsInCurrentByte(p int) int {
+	if p <= 0 {
+		return 8 // nothing fetched yet: the library reports 8 (and NrBytesRead 0); not reached by generated ops
+	}
+	return (p-1)%8 + 1
+}
+
 func widthOf(o op) int {
 	if o.K == "f" {
 		return 1
@@ -255,6 +322,8 @@ func readerFn(k string) string {
 		return "ReadFlag"
 	case "ue":
 		return "ReadExpGolomb"
+	case "sei":
+		return "Read(ff_byte run)"
 	}
 	return "ReadSignedGolomb"
 }
@@ -274,6 +343,28 @@ func TestOps(t *testing.T) {
 		cls := []string{"ops-" + c.Writer}
 		if c.Writer == "ebsp" && escapes > 0 {
 			cls = append(cls, "ops-ebsp-with-escape")
+		}
+		seen := map[string]bool{}
+		for _, o := range c.Ops {
+			if o.K != "sei" {
+				continue
+			}
+			l := "ops-sei-value-0..254"
+			switch {
+			case o.V >= 510:
+				l = "ops-sei-value-two-or-more-ff-bytes"
+			case o.V >= 255:
+				l = "ops-sei-value-one-ff-byte"
+			}
+			if o.V%255 == 0 && o.V > 0 {
+				seen["ops-sei-value-multiple-of-255"] = true
+			}
+			seen[l] = true
+		}
+		for _, l := range []string{"ops-sei-value-0..254", "ops-sei-value-one-ff-byte", "ops-sei-value-two-or-more-ff-bytes", "ops-sei-value-multiple-of-255"} {
+			if seen[l] {
+				cls = append(cls, l)
+			}
 		}
 		harness.Rec.Case(unaligned || (c.Writer == "ebsp" && escapes > 0), raw, cls...)
 		if harness.Rec.WantSample() && c.Writer == "ebsp" && escapes > 0 {
@@ -502,6 +593,33 @@ func checkTrailing(c trailingCase) *harness.Fail {
 	}
 	rbsp := bw.Out()
 	ebsp := nalgen.Escape(rbsp)
+	// the same stream built with the library: EBSPWriter.Write for the data, WriteRbspTrailingBits for the
+	// stop bit + alignment (the zero tail, cabac_zero_words-like, as plain zero bytes)
+	{
+		buf := bytes.Buffer{}
+		w := bits.NewEBSPWriter(&buf)
+		for _, b := range c.Head {
+			w.Write(uint(b), 8)
+		}
+		w.Write(c.HeadV, c.HeadBits)
+		for _, b := range c.More {
+			w.Write(uint(b), 8)
+		}
+		w.Write(c.MoreV, c.MoreBits)
+		w.WriteRbspTrailingBits()
+		if nb := w.NrBitsInBuffer(); nb != 0 {
+			return harness.Failf("C13|EBSPWriter.WriteRbspTrailingBits|not byte aligned afterwards", "%d bits pending after trailing bits at bit %d", nb, q)
+		}
+		for i := 0; i < c.ZeroTail; i++ {
+			w.Write(0, 8)
+		}
+		if err := w.AccError(); err != nil {
+			return harness.Failf("C13|EBSPWriter|error", "%v", err)
+		}
+		if !bytes.Equal(buf.Bytes(), ebsp) {
+			return harness.Failf("C13|EBSPWriter.WriteRbspTrailingBits|output differs from reference", "data bits %d, zero tail %d: got %x want %x", q, c.ZeroTail, buf.Bytes(), ebsp)
+		}
+	}
 	// reference: more data at p iff some 1 bit in [p,q)
 	wantMore := false
 	for i := p; i < q; i++ {
